@@ -50,7 +50,7 @@ def _commit_loop_spec(so, old):
             ('bound', cidx <= Max(last, c0)),
             ('R9', Implies(nxt > c0, And(nxt <= last, maj, log.term_at(nxt) == term))),
         ]
-    return LoopSpec('C04:R9.loop', inv)
+    return LoopSpec('C04+C01+C18+C20:R9.loop', inv)
 
 
 @unit(name='tick.leader', relpath=MOD, qual=['SyncObj._onTick', 'SyncObj.__getEntries'], props=['C04', 'C20', 'C01', 'C18'],
